@@ -342,5 +342,5 @@ func TestC06(t *testing.T) {
 			}
 		}
 	}
-	c06Part.Run(s, hx.PerShard(hx.Pick(40000, 2000000)))
+	c06Part.Run(s, hx.PerShard(hx.Pick(240000, 4000000)))
 }
